@@ -660,6 +660,18 @@ func (g *Gen) allocBound(x *ssa.MakeSlice, st *State, r string, cp string) {
 
 func (g *Gen) makeMap(x *ssa.MakeMap, st *State) {
 	m := x.Type().Underlying().(*types.Map)
+	if x.Reserve != nil {
+		if b, ok := g.penv["allocbudget"]; ok {
+			rv := g.val(x.Reserve).T
+			r := g.blockR[x.Block()]
+			if r == "" {
+				r = "true"
+			}
+			g.oblige(g.oblName("allocbound"), "allocbound", []string{"SAFETY", "ALLOC"}, r, "(<= "+rv+" "+b.T+")",
+				"map size hint is bounded by the declared budget (input length)", x.Pos())
+			g.obls[len(g.obls)-1].CexExtra = "(assert (>= " + rv + " 1000000))"
+		}
+	}
 	loc := "(mkloc " + st.A + " pnil)"
 	g.defVal(x, loc)
 	an := g.fresh("A")
